@@ -33,7 +33,7 @@ func init() {
 }
 
 func runC13(r *Run, rng *rand.Rand, thorough bool) {
-	r.Rule = "the whole exchange AliceInit → BobMid(WC) → AliceEnd(WC) is run by the library for (a,b) ∈ {0,1,q-1,random}² over ordered pairs of vendored parameter sets; Alice's last step (proof gate + decryption + reduction) is an exact op against the Lean model; non-trivial = distinct op line; direct assertions: alpha+beta ≡ ab (mod q), wrong public point rejected, altered cA / cB rejected"
+	r.Rule = "the whole exchange AliceInit → BobMid(WC) → AliceEnd(WC) is run by the library for (a,b) ∈ {0,1,q-1,random}² over ordered pairs of vendored parameter sets; Alice's last step (proof gate + decryption + reduction) is an exact op against the Lean model; non-trivial = distinct op line; direct assertions: alpha+beta ≡ ab (mod q), wrong public point rejected, altered cA / cB rejected (+1, plaintext+1, additive inverse mod N², inverse, square, re-randomisation)"
 	c := curveByTag("s256")
 	q := c.Params().N
 	fx := loadFixtures()
@@ -125,6 +125,21 @@ func mtaOnce(r *Run, rng *rand.Rand, A, B *keygen.LocalPartySaveData, a, b *big.
 	alt("cB*(1+N)", 10, new(big.Int).Mod(new(big.Int).Mul(cB, new(big.Int).Add(sk.N, bi(1))), N2)) // adds 1 to the plaintext
 	alt("cA+1", 9, new(big.Int).Add(cA, bi(1)))
 	alt("cA*(1+N)", 9, new(big.Int).Mod(new(big.Int).Mul(cA, new(big.Int).Add(sk.N, bi(1))), N2))
+	// algebraically related ciphertexts: additive inverse modulo N² (keeps every even power), inverse,
+	// square, and a re-randomisation c·k^N of the same plaintext
+	kN := new(big.Int).Exp(unitBelow(rng, sk.N), sk.N, N2)
+	for _, cc := range []struct {
+		name string
+		idx  int
+		v    *big.Int
+	}{{"cB", 10, cB}, {"cA", 9, cA}} {
+		alt("N^2-"+cc.name, cc.idx, new(big.Int).Sub(N2, cc.v))
+		if inv := new(big.Int).ModInverse(cc.v, N2); inv != nil && inv.Cmp(cc.v) != 0 {
+			alt(cc.name+"^-1", cc.idx, inv)
+		}
+		alt(cc.name+"^2", cc.idx, new(big.Int).Mod(new(big.Int).Mul(cc.v, cc.v), N2))
+		alt(cc.name+"*k^N", cc.idx, new(big.Int).Mod(new(big.Int).Mul(cc.v, kN), N2))
+	}
 	if wc {
 		// Bob's public point must be b·G
 		a2 := append([]string{}, args...)
@@ -136,4 +151,6 @@ func mtaOnce(r *Run, rng *rand.Rand, A, B *keygen.LocalPartySaveData, a, b *big.
 	// Bob's side rejects an altered cA (range proof is bound to it)
 	_, _, _, _, err = mta.BobMid(sess, c, pk, rpf, b, new(big.Int).Mod(new(big.Int).Mul(cA, new(big.Int).Add(sk.N, bi(1))), N2), A.NTildei, A.H1i, A.H2i, B.NTildei, B.H1i, B.H2i, rdr(rng))
 	r.Assert(err != nil, name+".BobMid/altered-cA", "altered-ciphertext-rejected", nil)
+	_, _, _, _, err = mta.BobMid(sess, c, pk, rpf, b, new(big.Int).Sub(N2, cA), A.NTildei, A.H1i, A.H2i, B.NTildei, B.H1i, B.H2i, rdr(rng))
+	r.Assert(err != nil, name+".BobMid/negated-cA", "altered-ciphertext-rejected", func() string { return "N^2-cA with the range proof made for cA" })
 }
